@@ -378,6 +378,11 @@ def check(prop, tier, seed, workers=None, runs=None):
         by_sig.setdefault(u['incident']['signature'], u)
     for sig in sorted(by_sig, key=lambda s_: ('|hang|' in s_, s_))[:8]:
         u = by_sig[sig]
+        if '|hang|' in sig and prop != 'C20':
+            # an event over its CPU budget.  Only C20 ("either succeeds or raises") says anything about termination, and a slow call
+            # that would finish is no violation of any property: reported, never an alarm, under the other checks.
+            print(f'NOTE event over its CPU budget (no verdict under {prop}): {sig} in run {u["desc"]}')
+            continue
         events, ok = kernel.minimise(lambda: Eng(), u['events'], sig)
         if ok and not any(i.sig == sig for i in Eng().replay(events).incidents):
             ok = False        # reproduced once but not twice: state outside the run is involved
